@@ -26,7 +26,7 @@ def Cases(tier):
   return cases + semrun.Reproducers(PROP)
 
 
-REQUIRED = ['fam_two_instances_chain', 'fam_swap_bindings', 'fam_clone_limited_twice', 'fam_arg_inside_list',
+REQUIRED = ['fam_arg_in_head', 'fam_two_instances_chain', 'fam_swap_bindings', 'fam_clone_limited_twice', 'fam_arg_inside_list',
             'fam_made_with_own_rules', 'fam_made_with_limit',
             'fam_make_order_chain', 'make_fresh', 'make_same_functor_other_binding',
             'make_same_functor_same_binding', 'make_functor_of_result',
